@@ -179,9 +179,9 @@ func dayEP(n int) endpoint {
 
 func TestCheckWindows(t *testing.T) {
 	s := harness.NewSub("day-windows-exhaustive",
-		"every ordered pair of day ranges [a,b] x [c,d], a<=b, c<=d, inside three 14-day windows (23 Feb-7 Mar 2024 across the leap day, 25 Dec 1999-7 Jan 2000 across a year end, 1-14 Jan 0001 at the lower limit; thorough: 20-day windows); all distinct by construction; non-trivial = an endpoint coincidence or a single-day operand")
+		"every ordered pair of day ranges [a,b] x [c,d], a<=b, c<=d, inside three 14-day windows (23 Feb-7 Mar 2024 across the leap day, 25 Dec 1999-7 Jan 2000 across a year end, 1-14 Jan 0001 at the lower limit; thorough: 28-day windows); all distinct by construction; non-trivial = an endpoint coincidence or a single-day operand")
 	s.SetExhaustive(true)
-	w := harness.Pick(14, 20)
+	w := harness.Pick(14, 28)
 	starts := []int{ref.CivilDay(2024, 2, 23), ref.CivilDay(1999, 12, 25), ref.CivilDay(1, 1, 1), ref.CivilDay(9999, 12, 31) - w + 1}
 	shard, ns := harness.Shard(), harness.NShards()
 	idx := 0
@@ -260,7 +260,7 @@ func genEndpoint(t *rapid.T, label string, lo int, isEnd bool) endpoint {
 func TestCheckRandom(t *testing.T) {
 	s := harness.NewSub("random-mixed-granularity",
 		"random pairs of forward ranges over years 1..9999 whose four endpoints are day, month or year dates (compared through the true first/last day of the period), lengths from one day to centuries, the second range biased to start near an endpoint of the first; non-trivial = endpoint coincidence or single-day operand; distinct by the four endpoints")
-	s.Rapid(t, harness.Share(harness.Pick(200000, 6000000)), 60, func(rt *rapid.T) {
+	s.Rapid(t, harness.Share(harness.Pick(200000, 60000000)), 60, func(rt *rapid.T) {
 		base := rapid.OneOf(rapid.IntRange(0, ref.LastCivilDay-50000), rapid.SampledFrom([]int{0, ref.CivilDay(1900, 2, 25), ref.CivilDay(2000, 2, 25), ref.CivilDay(1999, 12, 20)})).Draw(rt, "base")
 		var cs cmpCase
 		cs.A = genEndpoint(rt, "a", base, false)
